@@ -743,7 +743,7 @@ def evolution_strength_of_connection(A, B=None, epsilon=4.0, k=2,
         # Create necessary vectors for scaling Atilde
         #   Its not clear what to do where B == 0.  This is an
         #   an easy programming solution, that may make sense.
-        Bmat_forscaling = np.ravel(Bmat)
+        Bmat_forscaling = np.ravel(Bmat).copy()
         Bmat_forscaling[Bmat_forscaling == 0] = 1.0
         DAtilde = Atilde.diagonal()
         DAtildeDivB = np.ravel(DAtilde) / Bmat_forscaling
